@@ -6,5 +6,6 @@ import krun
 repo = sys.argv[1] if len(sys.argv) > 1 else "/repo"
 scratch = "/tmp/verif_kani_dev/tree"
 os.makedirs(os.path.dirname(scratch), exist_ok=True)
-krun.prepare_scratch(repo, list(krun.all_groups().values()), scratch)
+g = krun.all_groups(repo, "/tmp/verif_kani_dev/wire_gen"); g.pop("__wire_notes", None)
+krun.prepare_scratch(repo, list(g.values()), scratch)
 print(scratch)
